@@ -620,6 +620,10 @@ def rule_algorithms(F, R):
                 "indices_size = indices.size()" in pp(loops[0]["c"][loops[0]["r"].index("init")])
             rows = [x for x in asg if pp(assignment(x)[0]) in ("subtensor.vector(i)", "subtensor(i)")]
             okr = len(rows) == 1 and re.sub(r"<[^()]*>", "", pp(assignment(rows[0])[1])) in ("vector(indices(i)).cast()", "cast(this->operator()(indices(i)))", "cast((*this)(indices(i)))", "cast(operator()(indices(i)))")
+            if not rows:
+                # another representation of the destination rows (not `subtensor.vector(i)` / `subtensor(i)`): undecided, not a violation
+                R.incomplete("R-C16-5", inst, f.loc(), "the gather does not assign `subtensor.vector(i)` / `subtensor(i)`: its representation of the result rows is not recognised")
+                continue
             R.check(okl and okr, "R-C16-5", inst, f.loc(), "row i of the result is row indices(i) of the source, for every i", "the gather no longer copies row indices(i) into row i for all i: %s" % [pp(x)[:60] for x in rows])
     R.floor("R-C16-5/indexed", n, 6, "indexed overloads")
     # ---- stack: segments / blocks are laid out contiguously
@@ -655,6 +659,63 @@ def rule_algorithms(F, R):
     R.floor("R-C16-5/stack", m, 4, "stack instantiations")
 
 
+def _minus_one(n):
+    n = skip(n)
+    while n is not None and n["k"] == "cast" and n.get("c"):
+        n = skip(n["c"][0])
+    if n is None:
+        return False
+    if n["k"] == "int":
+        return n["v"] == -1
+    return n["k"] == "un" and n.get("op") == "-" and skip(n["c"][0])["k"] == "int" and skip(n["c"][0])["v"] == 1
+
+
+def rule_inferred_dimension(F, R):
+    """R-C16-6: `reshape` infers a -1 dimension as -size() / prod(given dimensions, -1): with a given dimension of 0 this is 0 / 0. The operations
+    of the tensor library are stated for every shape including empty ones, so none of them may go through the inference with a given dimension
+    that can be 0: inside include/nano/tensor every reshape call with a literal -1 has only positive literals (or operands guarded `0 < e` by a
+    dominating test) as its other arguments. The witness file's own reshape(-1) calls prove that the matcher sees such calls."""
+    sites, wit = 0, 0
+    for f in F.functions.values():
+        lib = f.relfile.startswith("include/nano/tensor/")
+        witness = "witness" in (f.file or "")
+        if not (lib or witness):
+            continue
+        for c in f.calls(lambda c: callee(c).split("::")[-1].split("<")[0] in ("reshape", "treshape") and "tensor_t" in callee(c)):
+            a = args(c)
+            if not any(_minus_one(x) for x in a):
+                continue
+            if witness:
+                wit += 1
+                continue
+            sites += 1
+            others = [x for x in a if not _minus_one(x)]
+            bad = []
+            for x in others:
+                y = skip(x)
+                while y["k"] == "cast" and y.get("c"):
+                    y = skip(y["c"][0])
+                if y["k"] == "int" and y["v"] > 0:
+                    continue
+                txt = pp(y)
+                cw = f.cfg.where_enclosing(c) if f.cfg else None
+                guarded = False
+                for g in f.nodes():
+                    if g["k"] == "if" and "cond" in g.get("r", ()):
+                        cnd = skip(g["c"][g["r"].index("cond")])
+                        then = g["c"][g["r"].index("then")]
+                        if cnd["k"] == "bin" and cnd["op"] == "<" and skip(cnd["c"][0])["k"] == "int" and skip(cnd["c"][0])["v"] >= 0 and pp(cnd["c"][1]) == txt and \
+                                then is not None and any(z is c for z in walk(then)):
+                            guarded = True
+                if not guarded:
+                    bad.append(txt)
+            R.check(not bad, "R-C16-6", "%s reshape@%s" % (f.name, f.loc(c)), f.loc(c), "the given dimensions are positive wherever a -1 dimension is inferred",
+                    "`%s` infers its -1 dimension as -size() / (product of the given dimensions): `%s` can be 0 (an empty index list / an empty first axis are valid "
+                    "inputs of the tensor operations), which divides 0 by 0" % (pp(c)[:80], ", ".join(bad)))
+    R.floor("R-C16-6/witness", wit, 5, "reshape(-1) calls recognised in the witness file (the matcher is alive)")
+    R.ok("R-C16-6", "library sites", "include/nano/tensor:1", "%d uses of the -1 inference inside the tensor library's own operations" % sites)
+
+
 def run(ctx):
     R = ctx.report
     F = ctx.facts(TUS)
@@ -662,4 +723,5 @@ def run(ctx):
     rule_storage(F, R)
     rule_integral(F, R)
     rule_algorithms(F, R)
+    rule_inferred_dimension(F, R)
     rule_compile_fail(R)
